@@ -282,6 +282,13 @@ class RecvProto(Suite):
             notes.append("concurrent stream calls %s" % impl["overlaps"])
         return Verdict(ok, ok, "; ".join(notes))
 
+    matchers = {
+        # F20 (see C01): file capabilities do not survive; the only complaint is about xattrs of a created entry
+        "F20": lambda op, impl, model: any(k == "73656375726974792e6361706162696c697479" for e in op["src"]["tree"] if e.get("t") == "file" for k, _ in e.get("x", []))
+        and model.get("accept") and impl.get("recv") == "ok" and model.get("c01_why") == "xattrs of a created entry are missing"
+        and model.get("atfin_why") in (None, "", "xattrs of a created entry are missing"),
+    }
+
     def nontrivial(self, op, impl, model):
         return sum(1 for e in op["src"]["tree"] if e["t"] == "file") >= 2
 
